@@ -167,4 +167,155 @@ theorem ladder_noisy (hS : IsArgsort asS) (hR : IsArgsort asR)
   · exact hre _ _
 
 end core
+/-! ### rung 0: the pair as stored -/
+
+/-- the coordinate values of column `j` of the clean data set and of both coordinate variants, as stored -/
+def storedCol (f : MeshFields) (P1 P2 : List (List Int)) (j : Nat) : List Int :=
+  (f.mesh.points ++ P1 ++ P2).map (rowKey j)
+
+/-- joint `Sep` of the data AS STORED (orphan points included) — needed only for the as-is rung: the dichotomy
+    for the stored coordinate values of the clean data set and of both variants, magnitudes `≤ M`, the float side
+    conditions for the minimum tolerance the as-is rung uses and for the tolerances of the clean data set, and
+    both variants within `A` of the clean coordinates -/
+structure StoredJoint (f : MeshFields) (P1 P2 : List (List Int)) (A B M : Nat) : Prop where
+  hAB : 2 * A ≤ B
+  sep : ∀ j, j < f.mesh.dim → sepCol A B (storedCol f P1 P2 j) = true
+  mag : ∀ j, j < f.mesh.dim → ∀ v ∈ storedCol f P1 P2 j, v.natAbs ≤ M
+  boundsMin : boundsOk ⟨min (meshTolOf (withPoints f P1).mesh).atol (meshTolOf (withPoints f P2).mesh).atol,
+      min (meshTolOf (withPoints f P1).mesh).rtol (meshTolOf (withPoints f P2).mesh).rtol⟩ A B M = true
+  bounds0 : boundsOk (meshTolOf f.mesh) A B M = true
+  near1 : NearPts f.mesh.dim f.mesh.points P1 A
+  near2 : NearPts f.mesh.dim f.mesh.points P2 A
+
+theorem storedCol_mem0 {f : MeshFields} {P1 P2 : List (List Int)} {i : Nat} (hi : i < f.mesh.points.length) (j : Nat) :
+    (f.mesh.points.getD i []).getD j 0 ∈ storedCol f P1 P2 j := by
+  unfold storedCol
+  rw [Fc.getD_of_lt _ _ hi]
+  exact List.mem_map.mpr ⟨_, List.mem_append_left _ (List.mem_append_left _ (List.getElem_mem hi)), rfl⟩
+
+theorem storedCol_mem1 {f : MeshFields} {P1 P2 : List (List Int)} {i : Nat} (hi : i < P1.length) (j : Nat) :
+    (P1.getD i []).getD j 0 ∈ storedCol f P1 P2 j := by
+  unfold storedCol
+  rw [Fc.getD_of_lt _ _ hi]
+  exact List.mem_map.mpr ⟨_, List.mem_append_left _ (List.mem_append_right _ (List.getElem_mem hi)), rfl⟩
+
+theorem storedCol_mem2 {f : MeshFields} {P1 P2 : List (List Int)} {i : Nat} (hi : i < P2.length) (j : Nat) :
+    (P2.getD i []).getD j 0 ∈ storedCol f P1 P2 j := by
+  unfold storedCol
+  rw [Fc.getD_of_lt _ _ hi]
+  exact List.mem_map.mpr ⟨_, List.mem_append_right _ (List.getElem_mem hi), rfl⟩
+
+section rung0
+variable {h : List Nat → Int} {f : MeshFields} {P1 P2 : List (List Int)} {A B M : Nat} {C : List (List Int)}
+
+theorem map_getD_rows {d : Nat} {P : List (List Int)} (hP : ∀ r ∈ P, r.length = d) {ρ : List Nat}
+    (hρ : ∀ q ∈ ρ, q < P.length) : ∀ r ∈ ρ.map (fun i => P.getD i []), r.length = d := by
+  intro r hr
+  obtain ⟨q, hq, rfl⟩ := List.mem_map.mp hr
+  rw [Fc.getD_of_lt _ _ (hρ q hq)]
+  exact hP _ (List.getElem_mem (hρ q hq))
+
+theorem map_getD_getD {P : List (List Int)} {ρ : List Nat} {k : Nat} (hk : k < ρ.length) :
+    (ρ.map fun i => P.getD i []).getD k [] = P.getD (ρ.getD k 0) [] := by
+  rw [Fc.getD_of_lt _ _ (by rw [List.length_map]; exact hk), List.getElem_map, Fc.getD_of_lt ρ 0 hk]
+
+/-- **the as-is rung on a noisy relabelled pair**: if `mesh_equal` (minimum tolerances) accepts the two data sets
+    as stored, the two point orders agree (rigidity of the clean data set: `Sep ∧ Distinguishable` of `f.mesh` as
+    stored + `CentreSlack`), the cell orders agree, and every field passes -/
+theorem rung0_noisy (bh1 : BaseHyp h (withPoints f P1) A B M C) (bh2 : BaseHyp h (withPoints f P2) A B M C)
+    {As Bs Ms : Nat} (sj : StoredJoint f P1 P2 As Bs Ms) (hwf : WFP f)
+    {A' B' M' : Nat} {c' : List (List Int)} (hy : PointHypP (meshTolOf f.mesh) A' B' M' f.mesh c')
+    (hslack : ∀ r ∈ allRows f.mesh, CentreSlack A' B' M' r.length)
+    {as : List Int → List Nat} (has : IsArgsort as)
+    (hdist : ∀ a ∈ pitems f.mesh, ∀ b ∈ pitems f.mesh,
+      kvec (KC A' f.mesh) f.mesh.dim 0 a = kvec (KC A' f.mesh) f.mesh.dim 0 b →
+      kvec (KM A' c' as (meshTolOf f.mesh) f.mesh) f.mesh.dim 0 a =
+        kvec (KM A' c' as (meshTolOf f.mesh) f.mesh) f.mesh.dim 0 b → a = b)
+    {ρ1 ρ2 : List Nat} {κ1 κ2 : String → List Nat}
+    (hρ1 : ρ1.Perm (List.range f.mesh.points.length)) (hρ2 : ρ2.Perm (List.range f.mesh.points.length))
+    (hκ1 : CellMapsOk f κ1) (hκ2 : CellMapsOk f κ2)
+    (hd : (C02.runComparison
+        ⟨relabelF ρ1 κ1 (withPoints f P1), meshTolOf (relabelF ρ1 κ1 (withPoints f P1)).mesh, false⟩
+        ⟨relabelF ρ2 κ2 (withPoints f P2), meshTolOf (relabelF ρ2 κ2 (withPoints f P2)).mesh, false⟩).domainEq = true) :
+    allPassed (C02.runComparison
+        ⟨relabelF ρ1 κ1 (withPoints f P1), meshTolOf (relabelF ρ1 κ1 (withPoints f P1)).mesh, false⟩
+        ⟨relabelF ρ2 κ2 (withPoints f P2), meshTolOf (relabelF ρ2 κ2 (withPoints f P2)).mesh, false⟩) = true := by
+  have hl1 := sj.near1.len
+  have hl2 := sj.near2.len
+  have hρ1' : ρ1.Perm (List.range (withPoints f P1).mesh.points.length) := by
+    show ρ1.Perm (List.range P1.length); rw [hl1]; exact hρ1
+  have hρ2' : ρ2.Perm (List.range (withPoints f P2).mesh.points.length) := by
+    show ρ2.Perm (List.range P2.length); rw [hl2]; exact hρ2
+  have ht1 : meshTolOf (relabelF ρ1 κ1 (withPoints f P1)).mesh = meshTolOf (withPoints f P1).mesh :=
+    meshTolOf_relabelF κ1 hρ1'
+  have ht2 : meshTolOf (relabelF ρ2 κ2 (withPoints f P2)).mesh = meshTolOf (withPoints f P2).mesh :=
+    meshTolOf_relabelF κ2 hρ2'
+  have hlen1 : ρ1.length = f.mesh.points.length := by simpa using hρ1.length_eq
+  have hlen2 : ρ2.length = f.mesh.points.length := by simpa using hρ2.length_eq
+  have hlt1 : ∀ q ∈ ρ1, q < f.mesh.points.length := fun q hq => List.mem_range.mp (hρ1.mem_iff.mp hq)
+  have hlt2 : ∀ q ∈ ρ2, q < f.mesh.points.length := fun q hq => List.mem_range.mp (hρ2.mem_iff.mp hq)
+  have hd1 : 1 ≤ f.mesh.dim := bh1.hy0.dimPos
+  -- the accepted as-is comparison, split
+  have heq := (domainEq_iff _ _).mp hd
+  simp only [Bool.false_eq_true, if_false, ht1, ht2] at heq
+  rw [relabelF_withPoints, relabelF_withPoints, meshEqual_split, Bool.and_eq_true] at heq
+  obtain ⟨hpts, hcells⟩ := heq
+  have hpts' := beq_iff_eq.mp hpts
+  -- (1) the clean pair is accepted under the tolerances of `f`
+  have hclean : meshEqual (meshTolOf f.mesh) (relabelF ρ1 κ1 f).mesh (relabelF ρ2 κ2 f).mesh = true := by
+    rw [meshEqual_split, Bool.and_eq_true]
+    refine ⟨?_, hcells⟩
+    rw [beq_iff_eq]
+    show fuzzyCheck _ _ ⟨.flt f64, [(ρ1.map fun i => f.mesh.points.getD i []).length, f.mesh.dim],
+        (ρ1.map fun i => f.mesh.points.getD i []).flatten⟩
+      ⟨.flt f64, [(ρ2.map fun i => f.mesh.points.getD i []).length, f.mesh.dim],
+        (ρ2.map fun i => f.mesh.points.getD i []).flatten⟩ = .ok true
+    refine pointsArr_close hd1 (by rw [List.length_map, List.length_map, hlen1, hlen2])
+      (map_getD_rows hwf.rows hlt2) (map_getD_rows hwf.rows hlt1) ?_
+    intro k hk j hj
+    have hk2 : k < ρ2.length := by simpa using hk
+    have hk1 : k < ρ1.length := by rw [hlen1, ← hlen2]; exact hk2
+    rw [map_getD_getD hk1, map_getD_getD hk2]
+    have hq1 := hlt1 _ (getD_mem hk1 0)
+    have hq2 := hlt2 _ (getD_mem hk2 0)
+    -- what the noisy comparison says about position `k`
+    have hc := pointsArr_close_inv (t := ⟨min (meshTolOf (withPoints f P1).mesh).atol (meshTolOf (withPoints f P2).mesh).atol,
+        min (meshTolOf (withPoints f P1).mesh).rtol (meshTolOf (withPoints f P2).mesh).rtol⟩) (d := f.mesh.dim)
+      (P := ρ2.map fun i => P2.getD i []) (Q := ρ1.map fun i => P1.getD i [])
+      (by rw [List.length_map, List.length_map, hlen1, hlen2])
+      (map_getD_rows bh2.wf.rows (fun q hq => by show q < P2.length; rw [hl2]; exact hlt2 q hq))
+      (map_getD_rows bh1.wf.rows (fun q hq => by show q < P1.length; rw [hl1]; exact hlt1 q hq)) hpts'
+      (k := k) (j := j) (by rw [List.length_map]; exact hk2) hj
+    rw [map_getD_getD hk1, map_getD_getD hk2] at hc
+    set u := (f.mesh.points.getD (ρ1.getD k 0) []).getD j 0 with hu
+    set v := (f.mesh.points.getD (ρ2.getD k 0) []).getD j 0 with hv
+    set u' := (P1.getD (ρ1.getD k 0) []).getD j 0 with hu'
+    set v' := (P2.getD (ρ2.getD k 0) []).getD j 0 with hv'
+    have mu : u ∈ storedCol f P1 P2 j := storedCol_mem0 hq1 j
+    have mv : v ∈ storedCol f P1 P2 j := storedCol_mem0 hq2 j
+    have mu' : u' ∈ storedCol f P1 P2 j := storedCol_mem1 (by rw [hl1]; exact hq1) j
+    have mv' : v' ∈ storedCol f P1 P2 j := storedCol_mem2 (by rw [hl2]; exact hq2) j
+    have hsep := sj.sep j hj
+    have n1 : (u' - u).natAbs ≤ As := sj.near1.near _ hq1 j hj
+    have n2 : (v' - v).natAbs ≤ As := sj.near2.near _ hq2 j hj
+    have n3 : (u' - v').natAbs ≤ As := by
+      rcases (sepCol_iff As Bs _).mp hsep u' mu' v' mv' with h' | h'
+      · exact h'
+      · have := closeFz_of_far sj.boundsMin (sj.mag j hj u' mu') (sj.mag j hj v' mv') h'
+        rw [hc] at this
+        cases this
+    have n4 : (u - v').natAbs ≤ As := near_trans hsep sj.hAB mu mv' (by omega) n3
+    have n5 : (u - v).natAbs ≤ As := near_trans hsep sj.hAB mu mv n4 n2
+    exact closeFz_of_near sj.bounds0 n5
+  -- (2) rigidity of the clean data set
+  have hρ := rigid_of_distinguishable hwf hy hslack has hdist hρ1 hρ2 hκ1 hκ2 hclean
+  subst hρ
+  -- (3) same point order: two cell orders of one view
+  have hcov := covers_of_perm bh1.wf hρ1'
+  exact runComparison_noisy_views (s := applyPointMap f ρ1)
+    (by rw [cellTypes_applyPointMap]; exact hwf.types) (bh1.vertexSets hcov)
+    (hκ1.pointMap _) (hκ2.pointMap _) _ _ _ _ _ _ hd
+
+end rung0
+
 end Fc.Resid2
